@@ -362,15 +362,25 @@ def body_report_history(k1, s1, d1, k2, s2, d2, kindf, text, start, end):
         mweb.fresh_world(members, {})
         app = mweb.make_app(index_threshold=0)
         ok = True
+        from xv.env import mstore as _ms
+        DATA = "{urn:ietf:params:xml:ns:caldav}calendar-data"
         for sh in (shape_a, shape_a, shape_b, shape_b, shape_a, shape_b):
             el = ET.Element("{urn:ietf:params:xml:ns:caldav}calendar-query")
-            ET.SubElement(ET.SubElement(el, "{DAV:}prop"), "{DAV:}getetag")
+            prop = ET.SubElement(el, "{DAV:}prop")
+            ET.SubElement(prop, "{DAV:}getetag")
+            ET.SubElement(prop, DATA)
             el.append(_calq.filter_xml(sh, kindf, text, 1, False, start, end))
             r = mweb.call(app, "REPORT", mweb.CAL + "/", xml=el, content_type="text/xml", headers=[("Depth", "1")])
             if r.kind != "multistatus":
                 return (False, "no-multistatus")
             got = sorted(st.href[len(mweb.CAL) + 1:] for st in r.statuses)
             ok = ok and got == wants[sh]
+            for st in r.statuses:
+                # every response carries the member's own data under the member's own etag (C02)
+                nm = st.href[len(mweb.CAL) + 1:]
+                if nm in members:
+                    ok = ok and mweb.prop_text(st, DATA) == members[nm].decode("ascii")
+                    ok = ok and mweb.prop_text(st, "{DAV:}getetag") == chr(34) + _ms.expected_etag("tree", members[nm]) + chr(34)
     finally:
         Wb.ICalendarFile, xcal.get_calendar_timezone = saved
     return (ok, "a%d-b%d" % (len(wants[shape_a]), len(wants[shape_b])))
